@@ -553,6 +553,9 @@ class BuiltinModelLoaderGen(ModelLoaderGen):
     def _gen_forbidden_sequence_check(self, state: GenState) -> None:
         with state.builder(f"if isinstance({state.v_data}, str):"):
             self._gen_raise_bad_type_error(state, f"ExcludedTypeLoadError(CollectionsSequence, str, {state.v_data})")
+        # mapping with integer keys passes all lookups by index
+        with state.builder(f"if isinstance({state.v_data}, CollectionsMapping):"):
+            self._gen_raise_bad_type_error(state, f"TypeLoadError(CollectionsSequence, {state.v_data})")
 
     def _gen_list_crown(self, state: GenState, crown: InpListCrown):
         if state.path:
